@@ -36,6 +36,11 @@ def gen_cap(rng, layouts, binds=None, big=False):
 def gen_case(rng, size="small", allow_stacked=True, allow_multi=True):
     deps = []
     inner = None
+    # contention mode (30 %): one tight location, every job targets it, all requests first, releases in random order:
+    # several requests with different requirements are blocked at once
+    contention = rng.random() < 0.3
+    if contention:
+        allow_stacked, allow_multi = False, False
     if allow_stacked and rng.random() < 0.45:
         hw_inner = rng.random() < 0.75
         locs = []
@@ -43,13 +48,13 @@ def gen_case(rng, size="small", allow_stacked=True, allow_multi=True):
             locs.append({"name": f"h{i}", "cap": gen_cap(rng, INNER_LAYOUTS, big=True) if hw_inner else None,
                          "slots": None if hw_inner else rng.choice([None, 1, 2, 3]), "wraps": None})
         inner = {"name": "host", "wraps": None, "locs": locs}
-    ndeps = rng.randrange(1, 4)
+    ndeps = 1 if contention else rng.randrange(1, 4)
     for d in range(ndeps):
         name = f"d{d}"
         stacked = inner is not None and rng.random() < 0.7
         kind = rng.choice(["hw", "hw", "hw", "slots"])
         locs = []
-        for i in range(rng.randrange(1, 4)):
+        for i in range(1 if contention else rng.randrange(1, 4)):
             wraps = rng.choice(inner["locs"])["name"] if stacked else None
             inner_hw = stacked and inner["locs"][0]["cap"] is not None
             if kind == "hw":
@@ -61,7 +66,7 @@ def gen_case(rng, size="small", allow_stacked=True, allow_multi=True):
     if inner is not None:
         deps.append(inner)
     outer = [d for d in deps if d["name"] != "host"]
-    njobs = rng.randrange(2, 5 if size == "small" else 8)
+    njobs = rng.randrange(4, 8) if contention else rng.randrange(2, 5 if size == "small" else 8)
     names = []
     for j in range(njobs):
         step = rng.choice(["/s0", "/s0", "/s1", "/wf/s2"])
@@ -89,6 +94,10 @@ def gen_case(rng, size="small", allow_stacked=True, allow_multi=True):
         jobs[nm] = {"req": req, "targets": targets}
     nops = rng.randrange(6, 25 if size == "small" else 60)
     ops = []
+    if contention:
+        order = list(names)
+        rng.shuffle(order)
+        ops = [["S", j] for j in order] + [["N", j, "RUNNING", 0] for j in order if rng.random() < 0.7]
     for _ in range(nops):
         j = rng.choice(names)
         r = rng.random()
